@@ -422,7 +422,13 @@ func (srv *server) registerClient(connect *packets.Connect, client *client) (ses
 	srv.statsManager.clientConnected(client.opts.ClientID)
 
 	if oldSession != nil {
-		if !oldSession.IsExpired(now) && !connect.CleanStart {
+		// The session expires ExpiryInterval seconds after its last network connection was closed (not after it was
+		// connected). offlineClients holds that point in time; a session which is not offline has just been taken over.
+		expired := false
+		if expiredTime, ok := srv.offlineClients[client.opts.ClientID]; ok {
+			expired = now.After(expiredTime)
+		}
+		if !expired && !connect.CleanStart {
 			sessionResume = true
 		}
 		// clean old session
